@@ -1,6 +1,6 @@
 #!/usr/bin/env python3
 """Scratch prototype: LLVM-14 textual IR -> C (type-erased pointers, byte-offset GEPs)."""
-import re, sys
+import os, re, sys
 
 class T:  # type
     def __init__(s, k, **kw): s.k = k; s.__dict__.update(kw)
@@ -10,6 +10,7 @@ class Mod:
     def __init__(s): s.types = {}; s.globals = {}; s.funcs = {}; s.decls = {}
 
 PTR = 8
+EH = os.environ.get('IR2C_EH') == '1'  # callees may throw: model unwinding through verif_exn
 def skipws(x, i):
     while i < len(x) and x[i] in ' \t': i += 1
     return i
@@ -232,9 +233,15 @@ def parse_module(text):
         name = mm.group(1).strip('"'); rest = mm.group(2)
         if ' external ' in ' ' + rest + ' ' and 'constant' in rest and 'c"' not in rest and '[' not in rest.split('constant')[1][:3]:
             m.globals[name] = ('extern', None); continue
+        if re.match(r'external (?:local_unnamed_addr )?global ', rest):
+            m.globals[name] = ('extern', None); continue
         mc = re.search(r'(constant|global) (.*)$', rest); body = mc.group(2)
         t, j = parse_type(body, 0, m); init = body[j:].split(', align')[0].strip()
         m.globals[name] = (t, init)
+    m.attrs = {}
+    for ln in lines:
+        mm = re.match(r'attributes #(\d+) = \{(.*)\}', ln)
+        if mm: m.attrs[mm.group(1)] = mm.group(2)
     # functions
     i = 0
     while i < len(lines):
@@ -266,6 +273,7 @@ def parse_function(hdr, body, m):
         t, q = parse_type(a, 0, m); q = skip_attrs(a, q); pn = a[q:].strip()
         params.append((t, 'r_' + re.sub(r'\W', '_', pn[1:])))
     fn = Fn(name, rt, params, m, varargs)
+    ga = re.search(r'#(\d+)', hdr[k:]); fn.attr = ga.group(1) if ga else ''
     fn.static = bool(re.match(r'define (?:dso_local )?(internal|linkonce_odr|weak_odr|private)\b', hdr))
     for t, n in params: fn.vt[n] = t
     # join continuation lines (invoke / switch / landingpad)
@@ -299,7 +307,9 @@ def emit_function(fn, out):
             r = 'r_' + re.sub(r'\W', '_', mm.group(1)); op = mm.group(2); rest = mm.group(3)
             t = None
             if op == 'alloca': t = T('ptr', to=None)
-            elif op in ('load',): t = parse_type(rest, 0, m)[0]
+            elif op in ('load',): t = parse_type(re.sub(r'^(?:atomic )?(?:volatile )?', '', rest), 0, m)[0]
+            elif op == 'atomicrmw':
+                t = parse_type(split_args(re.sub(r'^(?:volatile )?\w+ ', '', rest))[1].strip(), 0, m)[0]
             elif op in ('getelementptr',): t = T('ptr', to=None)
             elif op in ('bitcast', 'ptrtoint', 'inttoptr', 'trunc', 'zext', 'sext', 'fptoui', 'fptosi', 'uitofp', 'sitofp', 'fpext', 'fptrunc'):
                 t = parse_type(rest[rest.rindex(' to ')+4:], 0, m)[0]
@@ -347,7 +357,25 @@ def emit_function(fn, out):
             code.append('  ' + emit_ins(fn, bn, s, edge, nva, decl))
     ps = ', '.join('%s %s' % (ctype(t, m), n) for t, n in fn.params) + (', ...' if fn.varargs else '')
     out.append('%s%s %s(%s) {' % ('static ' if getattr(fn, 'static', False) else '', ctype(fn.ret, m), cname(fn.name, m), ps or 'void'))
+    if EH: decl.append('  char* lp_exn = 0;')
     out.extend(decl); out.extend(code); out.append('}\n')
+
+def zero_ret(fn):
+    return 'return;' if resolve(fn.ret, fn.m).k == 'void' else 'return 0;'
+
+NOUNWIND_C = set('strlen strncmp free realloc malloc memcpy memset memmove snprintf vsnprintf aq_logger device_kind_as_string device_identifier_as_debug_string __cxa_begin_catch __cxa_end_catch __cxa_allocate_exception __cxa_free_exception'.split())
+def nounwind(fn, nm, tail):
+    m = fn.m
+    if nm in NOUNWIND_C: return True
+    g = re.search(r'#(\d+)', tail)
+    if g and 'nounwind' in m.attrs.get(g.group(1), ''): return True
+    d = m.decls.get(nm)
+    if d:
+        g = re.search(r'#(\d+)\s*$', d)
+        if g and 'nounwind' in m.attrs.get(g.group(1), ''): return True
+    f = m.funcs.get(nm)
+    if f is not None and 'nounwind' in m.attrs.get(getattr(f, 'attr', ''), ''): return True
+    return False
 
 def callee_and_args(fn, x):
     """x starts after 'call '/'invoke ' and fast-math/cc/ret attrs"""
@@ -385,7 +413,14 @@ def emit_ins(fn, bn, s, edge, nva, decl):
             return '%s = (char*)&%s;' % (r, v)
         n = 'mem_' + r; decl.append('  char %s[%d] __attribute__((aligned(16))) = {0};' % (n, max(1, sizeof(t, m))))
         return '%s = %s;' % (r, n)
+    if op == 'atomicrmw':
+        rest = re.sub(r'^(?:volatile )?', '', rest); aop = rest.split()[0]; a = split_args(rest[len(aop):])
+        pt, j = parse_type(a[0].strip(), 0, m); p, _ = parse_value(a[0].strip(), j, pt, fn)
+        t, j = parse_type(a[1].strip(), 0, m); v, _ = parse_value(a[1].strip(), j, t, fn)
+        cop = {'add': '+', 'sub': '-', 'and': '&', 'or': '|', 'xor': '^'}[aop]; ct = ctype(t, m)
+        return '%s = *(%s*)(%s); *(%s*)(%s) = (%s)(%s %s (%s));' % (r, ct, p, ct, p, ct, r, cop, v)
     if op == 'load':
+        rest = re.sub(r'^(?:atomic )?(?:volatile )?', '', rest)
         t, j = parse_type(rest, 0, m); j = skipws(rest, j) + 1; pt, j = parse_type(rest, j, m); p, j = parse_value(rest, j, pt, fn)
         return '%s = *(%s*)(%s);' % (r, ctype(t, m), p)
     if op == 'store':
@@ -453,11 +488,12 @@ def emit_ins(fn, bn, s, edge, nva, decl):
         if rest.startswith('void'): return 'return;'
         t, j = parse_type(rest, 0, m); v, j = parse_value(rest, j, t, fn); return 'return %s;' % v
     if op == 'unreachable': return '__CPROVER_assume(0);'
-    if op == 'resume': return '__CPROVER_assume(0);'
-    if op == 'landingpad': return '%s = 0;' % r
+    if op == 'resume': return ('verif_exn = lp_exn; ' + zero_ret(fn)) if EH else '__CPROVER_assume(0);'
+    if op == 'landingpad': return ('lp_exn = verif_exn; verif_exn = 0; %s = 0;' % r) if EH else '%s = 0;' % r
     if op == 'extractvalue':
         idx = rest.rsplit(',', 1)[1].strip()
         # {i8* exception object, i32 selector}: the only catchable type is std::exception (selector 1)
+        if EH: return ('%s = lp_exn;' % r) if idx == '0' else ('%s = (char*)1;' % r)
         return ('%s = (char*)verif_exn;' % r) if idx == '0' else ('%s = (char*)1;' % r)
     if op in ('call', 'invoke', 'tail', 'musttail', 'notail'):
         x = s
@@ -466,10 +502,14 @@ def emit_ins(fn, bn, s, edge, nva, decl):
         rt, fty, target, args, tail = callee_and_args(fn, x)
         nm = target[1:].strip('"')
         after = ''
+        maythrow = EH and not nm.startswith('llvm.') and not nounwind(fn, nm, tail)
         if op == 'invoke':
             mm = re.search(r'to label %([\w.\-$]+) unwind label %([\w.\-$]+)', tail)
             after = ' ' + edge(bn, mm.group(1))
             if nm == '__cxa_throw': return 'verif_exn = (char*)(%s); ' % args[0][1] + edge(bn, mm.group(2))
+            if maythrow: after = ' if (verif_exn) { %s } else { %s }' % (edge(bn, mm.group(2)), edge(bn, mm.group(1)))
+        elif EH and nm == '__cxa_throw': return 'verif_exn = (char*)(%s); ' % args[0][1] + zero_ret(fn)
+        elif maythrow: after = ' if (verif_exn) { %s }' % zero_ret(fn)
         if nm.startswith('llvm.lifetime') or nm.startswith('llvm.experimental.noalias') or nm.startswith('llvm.dbg'): return ';' + after
         if nm.startswith('llvm.memcpy') or nm.startswith('llvm.memmove'): return 'memmove(%s, %s, %s);' % (args[0][1], args[1][1], args[2][1]) + after
         if nm.startswith('llvm.memset'): return 'memset(%s, %s, %s);' % (args[0][1], args[1][1], args[2][1]) + after
@@ -503,7 +543,7 @@ def emit_ins(fn, bn, s, edge, nva, decl):
 used_externs = {}
 
 def emit_module(m, want=None):
-    out = ['#include <stdint.h>', '#include <stddef.h>', '#include <stdarg.h>', '#include <string.h>', 'static char* verif_exn; /* exception in flight */', '']
+    out = ['#include <stdint.h>', '#include <stddef.h>', '#include <stdarg.h>', '#include <string.h>', ('char* verif_exn; /* exception in flight; set by the harness models of throwing library functions */' if EH else 'static char* verif_exn; /* exception in flight */'), '']
     gl = []
     for n, (t, init) in m.globals.items():
         if t == 'extern': gl.append('extern char %s[];' % cname(n, m)); continue
@@ -527,6 +567,7 @@ def emit_module(m, want=None):
         ps = ', '.join(ctype(t, m) for t, _ in f.params) + (', ...' if f.varargs else '')
         if want is not None and n not in want:
             # defined in the module but not translated: provided by the harness (model), external linkage
+            if EH and n not in used_externs: continue
             protos.append('%s %s(%s);' % (ctype(f.ret, m), cname(n, m), ps or 'void'))
             continue
         protos.append('%s%s %s(%s);' % ('static ' if getattr(f, 'static', False) else '', ctype(f.ret, m), cname(n, m), ps or 'void'))
